@@ -309,8 +309,11 @@ func Child(args []string) int {
 					defer wg.Done()
 					for i := range jobs {
 						stamps[i].call = tick()
-						code, body, pn := web.Get(spec.Requests[i])
+						code, body, pn, answered := getWithin(web, spec.Requests[i])
 						stamps[i].ret = tick()
+						if !answered {
+							code, body = NoAnswer, "no answer"
+						}
 						res.Segments[i] = Segment{Input: spec.Requests[i], Code: code, Body: body, Panic: pn}
 					}
 				}()
@@ -330,8 +333,17 @@ func Child(args []string) int {
 			web.Close()
 			break
 		}
-		for _, u := range spec.Requests {
-			code, body, pn := web.Get(u)
+		for i, u := range spec.Requests {
+			code, body, pn, answered := getWithin(web, u)
+			if !answered {
+				// the handler never returned: the server is stuck, the rest of the history is not sent
+				res.Segments = append(res.Segments, Segment{Input: u, Code: NoAnswer, Body: "no answer"})
+				for _, v := range spec.Requests[i+1:] {
+					res.Segments = append(res.Segments, Segment{Input: v, Code: NotSent, Body: "not sent"})
+				}
+				emit()
+				return 0
+			}
 			seg := Segment{Input: u, Code: code, Body: body, Panic: pn, UIErr: append([]string(nil), web.UI.Errs...)}
 			web.UI.Errs = nil
 			if fp := mon.Fingerprint(p); fp != fp0 && res.ProfileUnchanged {
@@ -350,3 +362,31 @@ func Child(args []string) int {
 }
 
 func init() { harness.Children["session"] = Child }
+
+// NoAnswer is the status recorded for a web request whose handler did not return within
+// answerLimit; NotSent marks the requests of a sequential history after such a request. Callers
+// must not turn a single NoAnswer into a verdict (see checks/c10: three fresh sessions).
+const (
+	NoAnswer = -1
+	NotSent  = -2
+)
+
+var answerLimit = 25 * time.Second
+
+func getWithin(web *drv.Web, u string) (code int, body, pn string, answered bool) {
+	type ans struct {
+		code     int
+		body, pn string
+	}
+	ch := make(chan ans, 1)
+	go func() {
+		c, b, p := web.Get(u)
+		ch <- ans{c, b, p}
+	}()
+	select {
+	case a := <-ch:
+		return a.code, a.body, a.pn, true
+	case <-time.After(answerLimit):
+		return 0, "", "", false
+	}
+}
